@@ -12,4 +12,11 @@ ENGINES = [
 ]
 NOTES = "Technique family: machine-checked proof in Lean 4 (theorems about executable models) + translators / correspondence checks that tie the models to /repo on every run. See DESIGN.md."
 NOT_APPLICABLE = {}
-CHECKS = {}
+TB = "Lean kernel; axioms propext/Classical.choice/Quot.sound only; my harness + translators; modelled-not-verified: JSON/pickle, SQLite/SQLAlchemy, gRPC, OS file semantics, threading primitives, numpy RNG, IEEE rounding. "
+CHECKS = {
+ "C01": {
+  "technique": "Lean 4 proof of the storage contract's invariants for all histories (induction over the op list) + correspondence check of every backend configuration against the executable Lean contract model",
+  "text": "Proof: numbers_dense, finished_frozen, deleted_gone, claim_once, read-your-writes/frame, template_stored_fieldwise, id freshness, compat equivalence hold for every reachable state of the contract model (no bound on history length). Tie: each generated history is executed call by call on in-memory, SQLite RDB, cached RDB, journal (file with both locks, fakeredis) and the gRPC proxy over each, and outputs / error classes / the whole readable state are compared with the Lean model run by the compiled driver; a disagreement is a violation of that backend with the minimised history as replay.",
+  "note": TB + "The tie samples histories (it does not prove that the Python backends refine the contract); SQLite stands for every RDB, fakeredis for Redis; contract loosenesses U1-U5 (DESIGN.md section 2) are accepted either way; known finding F12 (SQLite id reuse).",
+ },
+}
